@@ -1,8 +1,8 @@
-(* C03 requests 301..329: writer text-path models (301-304), reference parsers (310-313), line comparison
+(* C03 requests 301..329: writer text-path models (301-305; 305 = WebVTT with layout groups, wave 7), reference parsers (310-313), line comparison
    (320 lenient = trim + white-space-run collapse, used for classification only; 323 strict = trim only: the property). *)
 From Coq Require Import List ZArith Bool.
 From PV Require Import lib.Sx lib.Str lib.Result.
-From PV Require Import model.TextNodes model.TextWrite.
+From PV Require Import model.TextNodes model.TextWrite model.TextWriteVtt.
 From PV Require Import spec.SpecTextXml spec.SpecTextVtt spec.SpecTextBlocks spec.SpecTextLines extract.OrCommon.
 Import ListNotations.
 Open Scope Z_scope.
@@ -59,12 +59,37 @@ Definition req_parse (arg : sx) : sx :=
 Definition req_cues (f : str -> option (list (list str))) (arg : sx) : sx :=
   match arg with SS s => of_opt of_strss (f s) | _ => bad end.
 
+(* 305: WebVTT document of captions whose nodes carry layout identifiers (layout groups -> several cues per caption).
+   arg = SL [SL [SS settings_of_layout_0; SS settings_of_layout_1; ...]; SL [SL [SS timing; SL [SL [SI layout; node]; ...]]; ...]] *)
+Definition sx_lnode (x : sx) : option lnode :=
+  match x with
+  | SL [SI l; n] => match sx_node n with Some n' => Some (l, n') | None => None end
+  | _ => None
+  end.
+Definition sx_cap_l (x : sx) : option (str * list lnode) :=
+  match x with
+  | SL [SS tl; ns] => match sx_listof sx_lnode ns with Some l => Some (tl, l) | None => None end
+  | _ => None
+  end.
+Definition req_doc_g (arg : sx) : sx :=
+  match arg with
+  | SL [st; caps] =>
+      match sx_strs st, sx_listof sx_cap_l caps with
+      | Some tbl, Some c =>
+          SL [SS (vtt_doc_g (fun l => nth (Z.to_nat l) tbl []) c);
+              of_list (fun cap => of_list (fun g => SS (fst g)) (vtt_groups (snd cap))) c]
+      | _, _ => bad
+      end
+  | _ => bad
+  end.
+
 Definition dispatch (code : Z) (arg : sx) : option sx :=
   match code with
   | 301 => Some (req_payload arg)
   | 302 => Some (req_doc vtt_doc arg)
   | 303 => Some (req_doc srt_doc arg)
   | 304 => Some (req_doc mdvd_doc arg)
+  | 305 => Some (req_doc_g arg)
   | 310 => Some (req_parse arg)
   | 311 => Some (req_cues vtt_cue_lines arg)
   | 312 => Some (req_cues srt_cues arg)
